@@ -46,6 +46,18 @@ pub fn gen(idx: u64, rng: &mut Rng, tier: Tier) -> Scn {
         Some(0xFFFF_FFFE),
         Some(0xFFFF_FFFF_FFFE),
         Some((1u128 << 64) - 2),
+        // every length class of the TOI field (2, 4, 6, ... 14 bytes), also the ones that are the maximum of no width
+        Some((1u128 << 80) - 2),
+        Some((1u128 << 80) + 5),
+        Some(1u128 << 88),
+        Some((1u128 << 96) - 3),
+        Some((1u128 << 96) + 1),
+        // a value of a random bit length inside the width
+        Some({
+            let bits = rng.range(1, width.bits() as u64) as u32;
+            let v = (rng.next_u64() as u128) | ((rng.next_u64() as u128) << 64);
+            ((v >> (128 - bits)) | (1u128 << (bits - 1))) & max
+        }),
     ];
     let initial = initials[((idx / 6) % initials.len() as u64) as usize];
     // the random default: values a 128-bit draw can produce, incl. ones just below 2^128 and above the width
